@@ -3,7 +3,7 @@
 //!
 //! Space (complete enumeration): all 2^8 RedactionRules flag vectors x event types {7 with special
 //! rules, 2 others} x 3 top-level shapes x every subset of the per-type content key universe
-//! (spec keys + 1 unspecified key; third_party_invite in 4 shapes) x redacted_because in {None, Some}.
+//! (spec keys + 1 unspecified key; third_party_invite in 7 shapes (absent, three objects, null, string, array)) x redacted_because in {None, Some}.
 use std::collections::BTreeMap;
 
 use ruma_common::{
@@ -92,11 +92,15 @@ fn leaf(key: &str) -> CanonicalJsonValue {
     CanonicalJsonValue::Array(vec![CanonicalJsonValue::Object(inner), CanonicalJsonValue::Null])
 }
 
-/// third_party_invite shapes: 0 absent, 1 {signed, display_name}, 2 {display_name}, 3 {}
+/// third_party_invite shapes: 0 absent, 1 {signed, display_name}, 2 {display_name}, 3 {}, 4 null, 5 a string, 6 an array
 fn tpi(shape: u32) -> Option<CanonicalJsonValue> {
     let mut o = BTreeMap::new();
     match shape {
         0 => return None,
+        // not an object: nothing inside it is listed by the specification, so the key is removed like any other
+        4 => return Some(CanonicalJsonValue::Null),
+        5 => return Some(CanonicalJsonValue::String("x".to_owned())),
+        6 => return Some(CanonicalJsonValue::Array(vec![CanonicalJsonValue::Bool(true)])),
         1 => {
             o.insert("signed".to_owned(), leaf("signed"));
             o.insert("display_name".to_owned(), leaf("display_name"));
@@ -197,7 +201,7 @@ fn run_vectors(tier: &str, vectors: &[u32]) -> Report {
         for ty in TYPES {
             let uni = content_universe(ty);
             let n = uni.len() as u32;
-            let tpi_shapes = if *ty == "m.room.member" { 4 } else { 1 };
+            let tpi_shapes = if *ty == "m.room.member" { 7 } else { 1 };
             for subset in 0u32..(1 << n) {
                 for tshape in 0..tpi_shapes {
                     for top_shape in 0..top_shapes {
@@ -315,7 +319,7 @@ fn run_vectors(tier: &str, vectors: &[u32]) -> Report {
                                     let mut want_val = v.clone();
                                     if *ty == "m.room.member" && k == "third_party_invite" && kept && !rules.keep_room_create_content_dummy() {
                                         // narrowing: only `signed` inside; dropped if that leaves nothing
-                                        let mut o = v.as_object().cloned().unwrap();
+                                        let mut o = v.as_object().cloned().unwrap_or_default();
                                         o.retain(|kk, _| kk == "signed");
                                         kept = !o.is_empty();
                                         want_val = CanonicalJsonValue::Object(o);
@@ -361,7 +365,7 @@ fn run_vectors(tier: &str, vectors: &[u32]) -> Report {
     }
     Report {
         bound: format!(
-            "{} event types x every subset of the per-type content key universe (<= 11 keys incl. one unspecified key) x 4 third_party_invite shapes (member only) x {} top-level shapes x redacted_because in {{absent, present}}",
+            "{} event types x every subset of the per-type content key universe (<= 11 keys incl. one unspecified key) x 7 third_party_invite shapes (member only; incl. values that are not objects) x {} top-level shapes x redacted_because in {{absent, present}}",
             TYPES.len(), top_shapes
         ),
         cases,
